@@ -1000,7 +1000,7 @@ builtins = {
     
     'forcst' : lambda *args: forcst_(args),
 
-    'lookup' : lambda *args : "( self.memoize(\"{}\", {}) )".format(remove_nesting(args)[0]["name"],parseExpression(remove_nesting(args)[1])),
+    'lookup' : lambda *args : "( LERP( {}, self.points[\"{}\"]) )".format(parseExpression(remove_nesting(args)[1]),remove_nesting(args)[0]["name"]),
 
     'lookupinv' : lambda *args : "( self.lookupinv(\"{}\", {}) )".format(remove_nesting(args)[0]["name"],parseExpression(remove_nesting(args)[1])),
 
